@@ -48,7 +48,7 @@ def case(job):
     if empty_t:
         tt = ""
     # one project in seven keeps its config in a TOML file with CRLF line endings in which the commit message is a multi-line string ("""...""", two paragraphs)
-    crlf_ml = seed % 7 == 4 and not cli_c and seed % 3 != 1 and "\\" not in tc and '"""' not in tc and "\n" not in tc and "\t" not in tc
+    crlf_ml = seed % 7 == 4 and not cli_c and seed % 3 != 1 and not any(c in tc for c in "\\\"'#\n\t")          # (the third-party reader itself mishandles quotes and # inside such strings)
     if crlf_ml:
         tc = tc + "\n\nsecond paragraph {old_version}"
     # in a quarter of the git projects a version tag is AHEAD of the configured version: the old version of the placeholders is the tag's
